@@ -108,6 +108,8 @@ pub struct SimSocket {
     pub net: Rc<RefCell<Net>>,
     /// senders seen by the most recent receive_all_messages call
     pub last_rx_from: Rc<RefCell<Vec<Addr>>>,
+    /// genuine QualityReply packets received so far, per sender (C15: "enough data exists")
+    pub qreplies: Rc<RefCell<HashMap<Addr, u32>>>,
 }
 
 impl NonBlockingSocket<Addr> for SimSocket {
@@ -123,10 +125,13 @@ impl NonBlockingSocket<Addr> for SimSocket {
             .map(std::mem::take)
             .unwrap_or_default();
         let mut seen = self.last_rx_from.borrow_mut();
-        for (a, _, injected) in &v {
+        for (a, m, injected) in &v {
             // injected (forged) packets do not count as traffic from the peer for the timer monitor
             if !injected && !seen.contains(a) {
                 seen.push(*a);
+            }
+            if !injected && matches!(ggrs::verif::msg::view(m).body, ggrs::verif::msg::Body::QualityReply { .. }) {
+                *self.qreplies.borrow_mut().entry(*a).or_insert(0) += 1;
             }
         }
         v.into_iter().map(|(a, m, _)| (a, m)).collect()
